@@ -75,26 +75,38 @@ def check_property(prop, tier, seed, only=None, keep=False, write_evidence=True)
     undecided = []
     try:
         kani_obs = [o for o in obs if o["engine"] == "kani"]
-        if kani_obs or any(o["engine"] == "static" for o in obs):
-            scratch, info = verif.assemble()
+        scratch, info = verif.assemble()
         # ---- Kani groups
         groups = {}
         for o in kani_obs:
             feats = o["features"] if tier == "thorough" else o["features"][:1]
             for ft in feats:
                 groups.setdefault((ft, tuple(o.get("zflags", ())), o.get("group", "")), []).append(o)
-        for (ft, zf, grp), gobs in sorted(groups.items(), key=lambda kv: kv[0]):
+        def run_group(item):
+            (ft, zf, grp), gobs = item
             tmo = max(o["timeout"] for o in gobs) * (3 if tier == "thorough" else 1)
             names = [o["harness"] for o in gobs]
-            log("[kani] %s %s: %d harnesses (timeout %ds)" % (ft, " ".join(zf), len(names), tmo))
+            jobs = max(2, min(len(names), (verif.NCPU * len(names)) // max(1, total_h) + 1))
+            jobs = min(jobs, min(o.get("jobs_cap", verif.NCPU) for o in gobs))
+            log("[kani] %s %s %s: %d harnesses (timeout %ds, -j %d)" % (ft, " ".join(zf), grp, len(names), tmo, jobs))
+            tdir = os.path.join(scratch, "target-%s-%s-%s" % (ft, "_".join(zf), grp))
             try:
-                res, wall, cmd, out = verif.run_kani(scratch, names, features=ft, zflags=zf, timeout_s=tmo,
-                                                     jobs=min(verif.NCPU, max(o.get("jobs_cap", verif.NCPU) for o in gobs)))
+                return item, verif.run_kani(scratch, names, features=ft, zflags=zf, timeout_s=tmo, jobs=jobs,
+                                            extra=("--target-dir", tdir)), None
             except Undecided as e:
+                return item, None, e
+
+        total_h = sum(len(g) for g in groups.values())
+        from concurrent.futures import ThreadPoolExecutor
+        with ThreadPoolExecutor(max_workers=max(1, len(groups))) as ex:
+            outs = list(ex.map(run_group, sorted(groups.items(), key=lambda kv: kv[0])))
+        for ((ft, zf, grp), gobs), rr, err in outs:
+            if err is not None:
                 for o in gobs:
-                    results[(o["id"], ft)] = {"status": "undecided", "why": str(e)[:3000], "ob": o, "features": ft}
-                undecided.append(str(e)[:3000])
+                    results[(o["id"], ft)] = {"status": "undecided", "why": str(err)[:3000], "ob": o, "features": ft}
+                undecided.append(str(err)[:3000])
                 continue
+            res, wall, cmd, out = rr
             cmds.append(cmd)
             for o in gobs:
                 r = res[o["harness"]]
